@@ -1,19 +1,32 @@
 package presence
 
 import (
+	"bytes"
+
 	"github.com/kelindar/binary"
 
 	"github.com/emitter-io/emitter/internal/message"
 	"github.com/emitter-io/emitter/internal/verifrt"
 )
 
-// kelindar/binary decodes by reflection; what it can yield for a *message.Ssid is any
-// sequence of 32-bit words, including none: the stand-in hands over the harness's choice.
-var c09psTarget message.Ssid
-
+// binary.Unmarshal into a *message.Ssid is kelindar/binary's varuintSliceCodec.DecodeTo
+// (codecs.go, v1.0.19), transcribed over the real Decoder: the element count is read, the
+// slice is allocated for the declared count, and the loop runs for that many elements even
+// after a read error.
 func c09psUnmarshal(b []byte, out interface{}) error {
-	*(out.(*message.Ssid)) = c09psTarget
-	return nil
+	d := binary.NewDecoder(bytes.NewBuffer(b))
+	o := out.(*message.Ssid)
+	var l, x uint64
+	var err error
+	if l, err = d.ReadUvarint(); err == nil && l > 0 {
+		*o = make(message.Ssid, int(l))
+		for i := 0; i < int(l); i++ {
+			if x, err = d.ReadUvarint(); err == nil {
+				(*o)[i] = uint32(x)
+			}
+		}
+	}
+	return err
 }
 
 func c09psMarshal(val interface{}) ([]byte, error) { return []byte{1}, nil }
@@ -25,24 +38,14 @@ func (s *c09psSub) Type() message.SubscriberType  { return message.SubscriberDir
 func (s *c09psSub) Send(m *message.Message) error { return nil }
 
 // VerifC09PresenceSurvey: a presence survey arrives in a peer frame (cluster port) and is
-// handled on the mesh goroutine, which has no recover; its payload decodes to an arbitrary
-// ssid - no words, one word, wildcard words. OnSurvey must not panic, and must not leave
+// handled on the mesh goroutine, which has no recover; its payload is arbitrary bytes, which
+// decode to an arbitrary ssid - no words, one word, wildcard words, a huge declared count. OnSurvey must not panic, and must not leave
 // the subscription index locked (the lookup holds the read lock without a deferred unlock).
 func VerifC09PresenceSurvey(v *verifrt.T) {
 	trie := message.NewTrie()
 	s := &Service{trie: trie}
 	trie.Subscribe(message.Ssid{1, 2}, &c09psSub{id: "x"})
-	n := v.Choice(v.Bound("surveyssid")+1, "n")
-	ssid := make(message.Ssid, n)
-	for i := range ssid {
-		ssid[i] = v.U32("w", i)
-	}
-	payload := []byte{0}
-	if v.Symbolic() {
-		c09psTarget = ssid
-	} else {
-		payload, _ = binary.Marshal(ssid)
-	}
+	payload := v.Bytes(v.Choice(v.Bound("surveybytes")+1, "n"), "p")
 	panicked := v.Try(func() { s.OnSurvey("presence", payload) })
 	v.Assert(!panicked, "C09.presence-survey.no-panic")
 	v.Reach("surveyed")
